@@ -202,8 +202,13 @@ def run(tier):
                     chk.violation("raise:interpolate_periodic", "interpolate_periodic raised", dict(ctx, error=str(e)[:200]))
                     continue
                 evals += 1
-                inrange = lo <= got < lo + 360 or (got == lo + 360 and False)
-                if not (inrange and any(abs(got - q[0] / q[1]) <= 1e-9 for q in c[key])):
+                if key == "dir":
+                    # direction variables: in [0, 360)
+                    okv = 0 <= got < 360 and any(abs(got - q[0] / q[1]) <= 1e-9 for q in c[key])
+                else:
+                    # longitudes: any equivalent angle modulo 360 (the property fixes no interval: -180 and +180 are both fine)
+                    okv = math.isfinite(got) and any(min((got - q[0] / q[1]) % 360.0, (q[0] / q[1] - got) % 360.0) <= 1e-9 for q in c[key])
+                if not okv:
                     chk.violation("angular-linear:%s" % key, "angular data not interpolated along the shorter arc / wrong range (%s)" % key,
                                   dict(ctx, got=got, accepted=c[key], range=[lo, lo + 360]))
             # data frame (directions in [0,360), longitude equivalent modulo 360) and track
@@ -254,7 +259,7 @@ def run(tier):
                         ra, rb, ww = math.radians(a), math.radians(b), wn / wd
                         ref = math.degrees(math.atan2((1 - ww) * math.sin(ra) + ww * math.sin(rb), (1 - ww) * math.cos(ra) + ww * math.cos(rb)))
                         ok = ok and abs((got - ref + 180.0) % 360.0 - 180.0) <= 2e-3
-                    if v["kind"] != "unspecified" and rng_lo is not None and not (0.0 <= got < 360.0 + 1e-9):
+                    if v["kind"] != "unspecified" and rng_lo is not None and not (0.0 <= got < 360.0):
                         ok = False
                     if not ok:
                         chk.violation("vector-average:%s" % var, "dataset: angular variable %s not averaged along the shorter arc / wrong range" % var,
